@@ -195,17 +195,34 @@ def native_checks():
     plain = ["customer_id", "surname", "x1"]
     for dname, words in kw.items():
         d = dialect_of(dname)
-        for w in words + plain:
+        # (SQL keywords are case-insensitive: 'Index' and 'INDEX' are as reserved as 'index')
+        cased = [w.upper() for w in words] + [w.capitalize() for w in words]
+        for w in words + cased + plain + [p.upper() for p in plain]:
             n += 1
             cid = interface.create_cid_from_string("d,format,delimited\nf,%s,,,...5,Text\n" % w)
             try:
                 stmt = sql.SqlFactory(cid, "t", d).create_table_statement()
                 col = parse_columns(stmt)[0]
-                want = ('"%s"' % w) if w in words else w
+                want = ('"%s"' % w) if w.lower() in words else w
                 if col["name"] != want:
                     fail("sql-keyword-quoting", "%s: field %r rendered as %r, expected %r" % (dname, w, col["name"], want), dialect=dname, name=w)
             except Exception as e:  # noqa
                 fail("sql-keyword-quoting", "%s: field %r: %s: %s" % (dname, w, type(e).__name__, e), dialect=dname, name=w)
+    # one factory asked several times gives the same answer every time
+    for dname in DIALECTS + ("ansi",):
+        n += 1
+        try:
+            cid = interface.create_cid_from_string("d,format,delimited\nf,a,,,...5,Text\nf,index,,X,,Integer,0...99\nf,c,,,,Decimal,0...9.99\n")
+            factory = sql.SqlFactory(cid, "t", dialect_of(dname))
+            first_fields = list(factory.sql_fields())
+            first = factory.create_table_statement()
+            second = factory.create_table_statement()
+            again_fields = list(factory.sql_fields())
+            if first != second or first_fields != again_fields or len(parse_columns(second)) != 3:
+                fail("sql-factory-reuse", "%s: create_table_statement() twice on one SqlFactory: %r then %r; sql_fields() %r then %r" % (
+                    dname, first, second, first_fields, again_fields), dialect=dname)
+        except Exception as e:  # noqa
+            fail("sql-factory-reuse", "%s: reusing a SqlFactory raised %s: %s" % (dname, type(e).__name__, e), dialect=dname)
     # integer capacity at and around every type boundary (floats / logarithms in an implementation show up here)
     bounds = set()
     for b in [2 ** 7, 2 ** 8, 2 ** 15, 2 ** 16, 2 ** 31, 2 ** 32, 2 ** 63, 2 ** 64] + [10 ** k for k in range(1, 31)]:
